@@ -74,7 +74,7 @@ PLACEMENTS = ("none", "alone", "inline")
 FRAMINGS = ("none", "text-first", "data-first", "data-last")
 
 
-def render(items, end_label, decls, framing, refs):
+def render(items, end_label, decls, framing, refs, size=4096):
     """items: list of (placement, ins-choice); refs: per item index of the label / variable it refers to.
     Returns (text, expected instruction words, expected data cells, max_pc) or None if not well-formed."""
     label_addr = {}
@@ -91,7 +91,7 @@ def render(items, end_label, decls, framing, refs):
         label_addr["Lend"] = n
     var_addr = {}
     cells = {}
-    top = 4095
+    top = size - 1
     for k, vals in enumerate(decls):
         top -= len(vals)
         var_addr[f"v{k}"] = top + 1
@@ -157,8 +157,8 @@ def render(items, end_label, decls, framing, refs):
 REJECTED = ".data\nv0: .word 9\nv1: .word 8, 8\n.text\nL0: INC\nL1:\nL2: DEC\nLend:\nBRZ nowhere\n"
 
 
-def check_text(text, words, cells, max_pc, after_rejected=False):
-    sim = ToySimulation()
+def check_text(text, words, cells, max_pc, after_rejected=False, size=4096):
+    sim = ToySimulation() if size == 4096 else ToySimulation(unified_memory_size=size)
     if after_rejected:
         try:
             sim.load_program(REJECTED)
@@ -172,6 +172,9 @@ def check_text(text, words, cells, max_pc, after_rejected=False):
     except Exception as e:  # noqa
         return f"load_program raised {type(e).__name__}: {e!r}"
     st = sim.state
+    rng = st.memory.get_address_range()
+    if (rng.start, rng.stop) != (0, size):
+        return f"the memory of a simulation created with {size} words has addresses {rng.start}..{rng.stop - 1} after load_program"
     if st.max_pc != max_pc:
         return f"max_pc {st.max_pc}, expected {max_pc}"
     exp = {i: w for i, w in enumerate(words)}
@@ -189,7 +192,8 @@ DECLS = [(), ((7,),), ((7, 0x00F, 3),), ((1, 2), (0xFFFF,)), ((3,), (4, 5, 6)), 
 
 
 def asm_shard(shard):
-    length, first, framing_set = shard
+    length, first, framing_set = shard[:3]
+    size = shard[3] if len(shard) > 3 else 4096
     p = Partial()
     choices = [(pl, c) for pl in PLACEMENTS for c in INS_CHOICES]
     for tail in itertools.product(range(len(choices)), repeat=length - 1):
@@ -203,11 +207,13 @@ def asm_shard(shard):
                     rots = range(max(1, max(nlabels, len(decls)))) if nref else (0,)
                     for r in rots:
                         refs = [r + i for i in range(length)]
-                        out = render(items, end_label, decls, framing, refs)
+                        out = render(items, end_label, decls, framing, refs, size)
                         if out is None:
                             continue
                         text, words, cells, max_pc = out
                         p.evaluations += 1
+                        if size != 4096 and decls:
+                            p.counters["data-in-a-memory-of-another-size"] += 1
                         if nref:
                             p.nontrivial += 1
                         if any(pl == "inline" for pl, _c in items):
@@ -220,10 +226,10 @@ def asm_shard(shard):
                         after = (p.evaluations % 2 == 0)
                         if after:
                             p.counters["loaded-after-a-rejected-program"] += 1
-                        d = check_text(text, words, cells, max_pc, after)
+                        d = check_text(text, words, cells, max_pc, after, size)
                         if d:
-                            p.violation(dict(oracle="toy-assembler", field="layout"), dict(kind="toy-text", text=text, words=words, cells={str(k): v for k, v in cells.items()}, max_pc=max_pc, after=after),
-                                        f"{text!r}: {d}", size=(length, len(text)))
+                            p.violation(dict(oracle="toy-assembler", field="layout"), dict(kind="toy-text", text=text, words=words, cells={str(k): v for k, v in cells.items()}, max_pc=max_pc, after=after, size=size),
+                                        f"{text!r}{'' if size == 4096 else f' in a memory of {size} words'}: {d}", size=(length, len(text)))
     if first == 0:
         out = render([("inline", "a:BRZ:label"), ("alone", "a:ADD:var")], True, DECLS[2], "data-first", [1, 0])
         p.sample(dict(kind="toy-text", text=out[0]))
@@ -305,7 +311,7 @@ def replay(case):
         d = example_check(case["i"])
         return [(dict(oracle="toy-assembler", field="example"), d)] if d else []
     else:
-        d = check_text(case["text"], case["words"], {int(a): v for a, v in case["cells"].items()}, case["max_pc"], case.get("after", False))
+        d = check_text(case["text"], case["words"], {int(a): v for a, v in case["cells"].items()}, case["max_pc"], case.get("after", False), case.get("size", 4096))
         return [(dict(oracle="toy-assembler", field="layout"), d)] if d else []
     return [(lst[0][1], lst[0][3]) for _k, (n, lst) in part.viol.items()]
 
@@ -316,7 +322,7 @@ def run(ctx):
                 "lines over {no-address instruction, address instruction with decimal / hex / label / variable operand} x label placement {none, stand-alone, "
                 "in-line} x optional end label x every rotation of reference targets (forward, backward, self, end) x data declarations with 1-3 values (zeros included) x "
                 "segment framing {none, .text first, .data first, .data last}; every other text loaded into a simulation whose previous load (of a program declaring the same names) was rejected; expected image computed from the abstract program: instruction i at address i, "
-                "max_pc, data downward from 4095 in declaration order with elements ascending, every label / variable operand encoded as its address. The three "
+                "max_pc, data downward from 4095 (from size-1 in the same space repeated on ToySimulation(unified_memory_size=size) for several sizes; the address range after the load must be 0..size-1) in declaration order with elements ascending, every label / variable operand encoded as its address. The three "
                 "help-page examples are assembled, run and must end with the documented results. Non-trivial = text with a label or variable reference.")
     t0 = time.time()
     part = pmap(encoding_shard, [(lo, lo + 4096) for lo in range(0, 65536, 4096)])
@@ -328,6 +334,10 @@ def run(ctx):
         part = pmap(asm_shard, [(L, f, FRAMINGS) for f in range(nchoices)])
         ctx.space(f"assembler-{L}-instruction-lines", part, t0, lines=L)
     t0 = time.time()
+    sizes = (64, 1000, 4095) if ctx.quick else (16, 64, 256, 1000, 2048, 4095)
+    part = pmap(asm_shard, [(L, f, FRAMINGS, size) for size in sizes for L in (1, 2) for f in range(nchoices)][::-1])
+    ctx.space("assembler-other-memory-sizes", part, t0, sizes=list(sizes), lines=[1, 2])
+    t0 = time.time()
     part = Partial()
     for i in range(3):
         part.evaluations += 1
@@ -336,4 +346,4 @@ def run(ctx):
         if d:
             part.violation(dict(oracle="toy-assembler", field="example"), dict(kind="example", i=i), d, size=(i,))
     ctx.space("help-page-examples", part, t0)
-    ctx.require("opcode-above-12", "inline-label", "data-before-text", "forward-reference-possible", "loaded-after-a-rejected-program")
+    ctx.require("opcode-above-12", "inline-label", "data-before-text", "forward-reference-possible", "loaded-after-a-rejected-program", "data-in-a-memory-of-another-size")
